@@ -2,11 +2,12 @@
 # usage: tools/seed_eval.sh <Cnn> <pkgdir> <TestRegex> [check ids...]  — confirm a seed then run the checks on it
 ID=$1; PKG=$2; RX=$3; shift; shift; shift
 cd "$(dirname "$0")/.."
-tools/confirm_seed.sh $ID $PKG "$RX" > out/runlog/seed-$ID.confirm.log 2>&1
-echo "$ID confirm: $(tail -1 out/runlog/seed-$ID.confirm.log)"
-[ -d seeded/$ID ] || exit 1
+D=$ID${SEED_SUFFIX:-}
+tools/confirm_seed.sh $ID $PKG "$RX" > out/runlog/seed-$D.confirm.log 2>&1
+echo "$D confirm: $(tail -1 out/runlog/seed-$D.confirm.log)"
+grep -q "^CONFIRMED" out/runlog/seed-$D.confirm.log || exit 1
 [ $# -eq 0 ] && set -- $ID
 for c in "$@"; do
-  s=$(date +%s); tools/try_patch.sh seeded/$ID/patch.diff $c > out/runlog/seed-$ID.check-$c.log 2>&1; rc=$?
-  echo "$ID check $c rc=$rc $(( $(date +%s) - s ))s | $(grep -E 'signature|INCONCLUSIVE|HELD' out/runlog/seed-$ID.check-$c.log | head -4 | tr '\n' ' ' | cut -c1-400)"
+  s=$(date +%s); tools/try_patch.sh seeded/$D/patch.diff $c > out/runlog/seed-$D.check-$c.log 2>&1; rc=$?
+  echo "$D check $c rc=$rc $(( $(date +%s) - s ))s | $(grep -E 'signature|INCONCLUSIVE|HELD' out/runlog/seed-$D.check-$c.log | head -4 | tr '\n' ' ' | cut -c1-400)"
 done
